@@ -552,7 +552,17 @@ inline std::vector< std::string> genValues( Rng& rng, const ArgInfo& a, bool hos
          items.push_back( item);
       }
       if (a.multi && rng.chance( 1, 2))
+      {
          v = items;   // free words
+         // values that start with a dash need "--" in front of them
+         if (a.kind == kIntList && a.exact_values == 0 && !a.unique_error && items.size() + 2 <= static_cast< size_t>( a.max_values)
+             && rng.chance( 1, 3))
+         {
+            v.push_back( "--");
+            v.push_back( "-" + std::to_string( rng.range( 1, 99)));
+            if (rng.chance( 1, 2)) v.push_back( "-" + std::to_string( rng.range( 100, 199)));
+         }
+      }
       else
       {
          std::string  joined;
